@@ -444,6 +444,76 @@ fn exec_lock_probe(nflush: usize, nforce: usize) -> Result<(), String> {
     Ok(())
 }
 
+/// The second lock probe (case `(3 nflush nforce 1)`): while one thread is in the middle of Debug-formatting a flush
+/// guard of the entry into a writer that stalls, another thread drops a force-flush guard (owner gone).  Formatting a
+/// guard must not be able to make a force flush a no-op: when the drop returns the entry must have been appended.
+fn exec_debug_probe(nflush: usize) -> Result<(), String> {
+    use std::fmt::Write as _;
+    progress();
+    install_controller();
+    let mut w = World::new();
+    for _ in 0..nflush.max(1) { w.apply(Op::NewFlush); }
+    w.apply(Op::NewForce);
+    w.apply(Op::Mutate(9));
+    w.apply(Op::DropOwner(0));
+    let sink = w.sink.clone();
+    let fg = w.fgs.remove(0);
+    let ff = w.ffs.remove(0);
+    struct Stall(Arc<(Mutex<(bool, bool)>, Condvar)>);
+    impl std::fmt::Write for Stall {
+        fn write_str(&mut self, _s: &str) -> std::fmt::Result {
+            let (m, cv) = &*self.0;
+            let mut st = m.lock().unwrap();
+            st.0 = true;
+            cv.notify_all();
+            while !st.1 {
+                st = cv.wait(st).unwrap();
+            }
+            Ok(())
+        }
+    }
+    let gate = Arc::new((Mutex::new((false, false)), Condvar::new()));
+    let g2 = gate.clone();
+    let a = std::thread::spawn(move || {
+        let mut out = Stall(g2);
+        let _ = write!(out, "{:?}", fg);
+        fg
+    });
+    {
+        let (m, cv) = &*gate;
+        let mut st = m.lock().unwrap();
+        let lim = std::time::Instant::now() + std::time::Duration::from_secs(5);
+        while !st.0 && std::time::Instant::now() < lim {
+            st = cv.wait_timeout(st, std::time::Duration::from_millis(20)).unwrap().0;
+        }
+    }
+    let s2 = sink.clone();
+    let b = std::thread::spawn(move || {
+        drop(ff);
+        s2.count()
+    });
+    // B either finishes (it must then have appended) or waits for the formatter; give it a moment, then let A go on
+    let t0 = std::time::Instant::now();
+    while !b.is_finished() && t0.elapsed() < std::time::Duration::from_millis(60) {
+        std::thread::sleep(std::time::Duration::from_millis(2));
+    }
+    let finished_early = b.is_finished();
+    {
+        let (m, cv) = &*gate;
+        m.lock().unwrap().1 = true;
+        cv.notify_all();
+    }
+    let at_return = b.join().map_err(|_| "the dropping thread panicked".to_string())?;
+    let fg = a.join().map_err(|_| "the formatting thread panicked".to_string())?;
+    drop(fg);
+    drop(w);
+    if at_return != 1 {
+        return Err(format!("a force-flush guard was dropped (owner gone) while another thread was Debug-formatting a flush guard of the entry: {at_return} entries appended when the drop returned (finished while the formatter was stalled: {finished_early})"));
+    }
+    if sink.count() != 1 { return Err(format!("{} entries appended in the end", sink.count())); }
+    Ok(())
+}
+
 pub fn set_perturb(r: Option<Rng>) {
     PERTURB.with(|p| *p.borrow_mut() = r);
 }
@@ -749,6 +819,7 @@ pub fn exec(case: &Sx) -> (Sx, bool) {
             let prog = dec_prog(case.arg(1));
             (sx::boolean(exec_stress(&setup, &prog, case.arg(2).num() as u64).is_ok()), true)
         }
+        3 if case.arg(2).num() == 1 => (sx::boolean(exec_debug_probe(case.arg(0).num() as usize).is_ok()), true),
         3 => (sx::boolean(exec_lock_probe(case.arg(0).num() as usize, case.arg(1).num() as usize).is_ok()), true),
         _ => {
             let ops: Vec<Op> = case.arg(0).list().iter().map(dec_op).collect();
@@ -1153,6 +1224,17 @@ pub fn run(ctx: &Ctx) {
             }
             tout.case(&case, &sx::boolean(r.is_ok()), true);
             tout.count("lock_probe_runs");
+        }
+    }
+    for nflush in [1usize, 2] {
+        for _ in 0..(if ctx.tier_thorough { 4 } else { 2 }) {
+            let case = sx::tag(3, vec![sx::n(nflush as u64), sx::n(1u8), sx::n(1u8)]);
+            let r = exec_debug_probe(nflush);
+            if let Err(e) = &r {
+                tout.fail(format!("lock probe: {e}"), &case);
+            }
+            tout.case(&case, &sx::boolean(r.is_ok()), true);
+            tout.count("lock_probe_runs_with_a_formatting_thread");
         }
     }
     // free-running stress, predicate only
